@@ -436,13 +436,9 @@ class VAMMessage(CooperativeAwarenessMessage):
         dict
             Position confidence ellipse value.
         """
-        position_confidence_ellipse = {
-            "semiMajorAxisLength": int(epx * 100),
-            "semiMinorAxisLength": int(epy * 100),
-            "semiMajorAxisOrientation": 0,
-        }
-
-        return position_confidence_ellipse
+        # Same mapping as for the CAM: the larger estimate is the semi-major axis, values
+        # beyond the range of SemiAxisLength are reported as outOfRange
+        return super().create_position_confidence(epx, epy)
 
     def fullfill_basic_container_with_tpv_data(self, tpv: dict) -> None:
         """
@@ -467,11 +463,11 @@ class VAMMessage(CooperativeAwarenessMessage):
             ] = self.create_position_confidence(tpv["epx"], tpv["epy"])
         if "altHAE" in tpv.keys():
             alt = int(tpv["altHAE"] * 100)
-            if alt < -800000:
+            if alt < -100000:
                 self.vam["vam"]["vamParameters"]["basicContainer"]["referencePosition"][
                     "altitude"
                 ]["altitudeValue"] = -100000
-            elif alt > 613000:
+            elif alt > 800000:
                 self.vam["vam"]["vamParameters"]["basicContainer"]["referencePosition"][
                     "altitude"
                 ]["altitudeValue"] = 800000
